@@ -26,8 +26,8 @@ import common, minifont
 
 WIN = (3, 1, 0x409)
 NAME_IDS = (1, 2, 3, 4, 5, 6, 16, 17)
-QUICK_BUDGET = {"fallback": 200, "tail": 60, "inst": 180, "inst3": 60, "axesfea": 150}
-THOROUGH_BUDGET = {"fallback": 7000, "tail": None, "inst": 6000, "inst3": None, "axesfea": None}
+QUICK_BUDGET = {"fallback": 180, "tail": 50, "inst": 160, "inst3": 50, "axesfea": 130, "cvparams": 90}
+THOROUGH_BUDGET = {"fallback": 6000, "tail": None, "inst": 5000, "inst3": None, "axesfea": None, "cvparams": 2000}
 FIELDS = (("fam", "familyName"), ("sty", "styleName"), ("smf", "styleMapFamilyName"), ("sms", "styleMapStyleName"),
           ("pf", "openTypeNamePreferredFamilyName"), ("psub", "openTypeNamePreferredSubfamilyName"),
           ("uid", "openTypeNameUniqueID"), ("ver", "openTypeNameVersion"), ("psn", "postscriptFontName"),
@@ -44,7 +44,6 @@ def case_id(x):
 
 def fea_text(x):
     f = x["fea"]
-    refs = x["refs"]
     out = []
     if f["stat"] != "none":
         out.append("table STAT {")
@@ -68,18 +67,20 @@ def fea_text(x):
         out += ["table name {"] + recs + ["} name;"]
     if f["size"] != "~":
         out.append('feature size { parameters 10.0 3 80 139; sizemenuname "%s"; } size;' % f["size"])
-    if f["ss"] != "~":
-        out.append('feature ss01 { featureNames { name "%s"; }; sub a by b; } ss01;' % f["ss"])
-    if f["cv"]:
-        cv = {(r["k"], r["i"]): r["s"] for r in refs if r["k"].startswith("GSUB.cv01.")}
-        out.append("feature cv01 { cvParameters {")
-        out.append('    FeatUILabelNameID { name "%s"; };' % cv[("GSUB.cv01.featUiLabelNameID", 0)])
-        out.append('    FeatUITooltipTextNameID { name "%s"; };' % cv[("GSUB.cv01.featUiTooltipTextNameID", 0)])
-        out.append('    SampleTextNameID { name "%s"; };' % cv[("GSUB.cv01.sampleTextNameID", 0)])
-        out.append('    ParamUILabelNameID { name "%s"; };' % cv[("GSUB.cv01.paramUiLabelNameID", 1)])
-        out.append('    ParamUILabelNameID { name "%s"; };' % cv[("GSUB.cv01.paramUiLabelNameID", 2)])
+    for ss in f["sss"]:
+        out.append('feature %s { featureNames { name "%s"; }; sub a by b; } %s;' % (ss["tag"], ss["name"], ss["tag"]))
+    for cv in f["cvs"]:
+        out.append("feature %s { cvParameters {" % cv["tag"])
+        if cv["label"] != "~":
+            out.append('    FeatUILabelNameID { name "%s"; };' % cv["label"])
+        if cv["tip"] != "~":
+            out.append('    FeatUITooltipTextNameID { name "%s"; };' % cv["tip"])
+        if cv["sample"] != "~":
+            out.append('    SampleTextNameID { name "%s"; };' % cv["sample"])
+        for lab in cv["params"]:
+            out.append('    ParamUILabelNameID { name "%s"; };' % lab)
         out.append("    Character 0x61;")
-        out.append("}; sub a by b; } cv01;")
+        out.append("}; sub a by b; } %s;" % cv["tag"])
     return ("\n".join(out) + "\n") if out else None
 
 
@@ -154,13 +155,17 @@ def minifont_of(x):
 def stratum(x):
     n = x["names"]
     f = x["fea"]
-    feak = "%s%s%s%s%s" % (f["stat"], "S" if f["ss"] != "~" else "", "C" if f["cv"] else "", "Z" if f["size"] != "~" else "",
+    feak = "%s%s%s%s%s" % (f["stat"], "S%d" % len(f["sss"]), "C%d" % len(f["cvs"]), "Z" if f["size"] != "~" else "",
                            "N" if f["name9"] != "~" else "")
     axk = ",".join("%s/%s/%s" % (a["tag"], a["name"], a["label"] != "~") for a in x["axes"])
     s = x["src"]
     pres = "".join("A" if s[k] == "~" else ("E" if s[k] == "" else "P") for k, _ in FIELDS)
     if x["slice"] == "fallback":
         return (x["slice"], pres[:6], s["sty"], s["sms"])
+    if x["slice"] == "cvparams":
+        labels = [l for cv in f["cvs"] for l in cv["params"]]
+        return (x["slice"], x["mode"], len(f["cvs"]), len(f["sss"]), f["cvs"][0]["label"], len(labels) - len(set(labels)),
+                tuple(len(cv["params"]) for cv in f["cvs"]))
     if x["slice"] == "tail":
         return (x["slice"], pres[6:], s["fam"], s["vmaj"] < 0, s["vmin"])
     return (x["slice"], x["mode"], feak, axk, x["sens"], tuple(x["shadow"]), x["anyPs"], len(x["insts"]),
@@ -218,10 +223,8 @@ def fea_kind(x):
         parts.append("stat-" + f["stat"])
     if f["size"] != "~":
         parts.append("size")
-    if f["ss"] != "~":
-        parts.append("ss01")
-    if f["cv"]:
-        parts.append("cv01")
+    parts += [ss["tag"] for ss in f["sss"]]
+    parts += [cv["tag"] for cv in f["cvs"]]
     if f["name9"] != "~":
         parts.append("name9")
     return "+".join(parts) or "none"
@@ -350,25 +353,28 @@ class Judge:
                     missing = "STAT elidedFallbackNameID"
                 else:
                     oid = st["elided_fallback_name_id"]
-            elif k == "GSUB.ss01.uiNameID":
-                f = fps.get(("GSUB", "ss01"))
+            elif k.startswith("GSUB.") and k.endswith(".uiNameID"):
+                tag = k.split(".")[1]
+                f = fps.get(("GSUB", tag))
                 if not f or f.get("kind") != "ss":
-                    missing = "GSUB ss01 feature parameters"
+                    missing = "GSUB %s feature parameters" % tag
                 else:
                     oid = f["ui_name_id"]
-            elif k.startswith("GSUB.cv01."):
-                f = fps.get(("GSUB", "cv01"))
+            elif k.startswith("GSUB.cv"):
+                tag, field = k.split(".")[1:3]
+                f = fps.get(("GSUB", tag))
                 if not f or f.get("kind") != "cv":
-                    missing = "GSUB cv01 feature parameters"
-                elif k == "GSUB.cv01.featUiLabelNameID":
+                    missing = "GSUB %s feature parameters" % tag
+                elif field == "featUiLabelNameID":
                     oid = f["feat_ui_label_name_id"]
-                elif k == "GSUB.cv01.featUiTooltipTextNameID":
+                elif field == "featUiTooltipTextNameID":
                     oid = f["feat_ui_tooltip_text_name_id"]
-                elif k == "GSUB.cv01.sampleTextNameID":
+                elif field == "sampleTextNameID":
                     oid = f["sample_text_name_id"]
                 elif f["num_named_parameters"] < i:
-                    missing = "cv01 named parameter %d" % i
+                    missing = "%s named parameter %d" % (tag, i)
                 else:
+                    # OpenType: the labels of the N named parameters are the N consecutive ids from the first one
                     oid = f["first_param_ui_label_name_id"] + i - 1
             elif k == "GPOS.size.nameEntry":
                 f = fps.get(("GPOS", "size"))
@@ -615,7 +621,8 @@ def main(ctx):
     seen = {}
     for x in cases:
         x["id"] = case_id(x)
-        seen.setdefault(x["id"], x)       # different tokens may resolve to the same source
+    for x in sorted(cases, key=lambda x: (x["id"], x["slice"])):   # TLC's output order depends on its workers
+        seen.setdefault(x["id"], x)       # different tokens / slices may resolve to the same source
     cases = sorted(seen.values(), key=lambda x: x["id"])
     by_slice = {}
     for x in cases:
